@@ -2,6 +2,7 @@
 from __future__ import annotations
 
 import ast
+import re
 
 from ..engine import AnalysisError, MechanismMissing, PropertySpec, norm
 from ..pyutil import call_name, calls, const_str, is_name, walk_local
@@ -195,6 +196,134 @@ def r25_6(ctx, rep):
     no_implicit_concat(ctx, rep, "R25.6", XML, "variability prefixes, built-in names")
 
 
+def _child_collections(ctx, R):
+    """list-valued child fields of the AST node classes (ast.py): name -> True"""
+    out = set()
+    mod = ctx.module("src/pymoca/ast.py", R)
+    for c in mod.body:
+        if isinstance(c, ast.ClassDef):
+            for fn in c.body:
+                if isinstance(fn, ast.FunctionDef) and fn.name == "__init__":
+                    for st in ast.walk(fn):
+                        if isinstance(st, (ast.Assign, ast.AnnAssign)):
+                            t = st.targets[0] if isinstance(st, ast.Assign) else st.target
+                            if isinstance(t, ast.Attribute) and is_name(t.value, "self") and (
+                                    isinstance(st.value, ast.List) or "List[" in (norm(st.annotation) if isinstance(st, ast.AnnAssign) else "")):
+                                out.add(t.attr)
+    return out
+
+
+# Child lists whose first element alone is the backend's subset (one line of reason each).  The property quantifies over "models in the
+# XML backend's subset"; ModelicaXML's <when> element has exactly one <cond> and one <then> (backends/xml/parser.py exit_when reads
+# tree[0] and tree[1] and nothing else), so a when-equation with elsewhen branches is outside that subset.  (That the generator drops
+# the elsewhen branches silently instead of refusing them is recorded in DESIGN.md A.8 as an observation outside C25.)
+OUT_OF_SUBSET = {
+    ("exitWhenEquation", "conditions"): "ModelicaXML <when> has a single <cond>; elsewhen is outside the backend's subset",
+    ("exitWhenEquation", "blocks"): "ModelicaXML <when> has a single <then>; elsewhen is outside the backend's subset",
+}
+
+
+@SPEC.rule(
+    "R25.7",
+    "operand for operand: wherever a handler of XmlGenerator builds the element of a node that has a list of children (operands of an "
+    "expression, equations and symbols of a class), the whole list is passed on — starred, or through a comprehension over the whole "
+    "field; single elements are picked by subscript only under a test of the list's length that makes that element the whole list "
+    "(`len(...) == 1`) — a call with three arguments must not come out as an <apply> with two",
+)
+def r25_7(ctx, rep):
+    R = "R25.7"
+    ms = ctx.methods(XML, CLS, R)
+    lists = _child_collections(ctx, R)
+    n = 0
+    for name, fn in sorted(ms.items()):
+        if not name.startswith("exit"):
+            continue
+        arg = fn.args.args[1].arg if len(fn.args.args) > 1 else "tree"
+        site = "%s:%s.%s" % (XML, CLS, name)
+        # locals that hold (a mapping of) the whole child list
+        whole = {}
+        for st in walk_local(fn):
+            if isinstance(st, ast.Assign) and len(st.targets) == 1 and isinstance(st.targets[0], ast.Name) and isinstance(st.value, (ast.ListComp, ast.GeneratorExp)):
+                it = st.value.generators[0].iter
+                if isinstance(it, ast.Attribute) and is_name(it.value, arg) and it.attr in lists and not st.value.generators[0].ifs:
+                    whole[st.targets[0].id] = it.attr
+        fields_used = {x.attr for x in ast.walk(fn) if isinstance(x, ast.Attribute) and is_name(x.value, arg) and x.attr in lists}
+        for fld in sorted(fields_used):
+            if (name, fld) in OUT_OF_SUBSET:
+                rep.note("R25.7 %s.%s not examined: %s" % (name, fld, OUT_OF_SUBSET[(name, fld)]))
+                continue
+            n += 1
+            # picks of single elements: <arg>.<fld>[k] / <whole local>[k] with a constant k
+            picks = []
+            for x in ast.walk(fn):
+                if isinstance(x, ast.Subscript) and not isinstance(x.slice, ast.Slice) and isinstance(x.slice, (ast.Constant, ast.UnaryOp)):
+                    base = x.value
+                    if (isinstance(base, ast.Attribute) and is_name(base.value, arg) and base.attr == fld) or (isinstance(base, ast.Name) and whole.get(base.id) == fld):
+                        picks.append(x)
+            bad = []
+            for pk in picks:
+                guarded = False
+                p_ = getattr(pk, "_parent", None)
+                prev = pk
+                while p_ is not None and p_ is not fn:
+                    if isinstance(p_, ast.If) and prev in p_.body:
+                        t = norm(p_.test).replace(" ", "")
+                        if re.fullmatch(r"len\((%s\.%s|%s)\)==1" % (re.escape(arg), re.escape(fld), "|".join(map(re.escape, [k for k, v in whole.items() if v == fld])) or "@"), t):
+                            guarded = True
+                    prev, p_ = p_, getattr(p_, "_parent", None)
+                if not guarded:
+                    bad.append(norm(pk))
+            rep.ob(R, site, "children `%s.%s` are passed on whole" % (arg, fld), not bad,
+                   "single elements %s are picked out of the list without a test that the list has exactly that one element: the element built for a node "
+                   "with more children than the picks loses the others" % bad)
+    if n < 3:
+        raise MechanismMissing(R, "fewer than 3 child-list uses found in XmlGenerator's exit handlers")
+
+
+@SPEC.rule(
+    "R25.8",
+    "a literal attribute is left out only when it is absent: in XmlGenerator.exitSymbol a `continue` in a loop over attribute names that "
+    "include start or value is reached only through `<value> is None` tests, never through the value's truthiness — `start = 0`, "
+    "`value = 0.0` and `start = false` are values the document has to mirror",
+)
+def r25_8(ctx, rep):
+    from ..cfg import CFG
+    R = "R25.8"
+    fn = ctx.methods(XML, CLS, R).get("exitSymbol")
+    if fn is None:
+        raise MechanismMissing(R, "XmlGenerator.exitSymbol not found")
+    site = "%s:%s.exitSymbol" % (XML, CLS)
+    cfg = CFG(fn, R)
+    n = 0
+    for lp in walk_local(fn):
+        if not isinstance(lp, ast.For):
+            continue
+        words = {x.value for x in ast.walk(lp.iter) if isinstance(x, ast.Constant) and isinstance(x.value, str)}
+        if not (words & {"start", "value"}):
+            continue
+        n += 1
+        inside = {id(x) for st in lp.body for x in ast.walk(st)}
+        # the local that holds the attribute's value
+        vals = {st.targets[0].id for st in ast.walk(lp) if isinstance(st, ast.Assign) and isinstance(st.targets[0], ast.Name) and "getattr(" in norm(st.value)}
+        bad = []
+        for c in cfg.stmts():
+            if isinstance(c.ast, ast.Continue) and id(c.ast) in inside:
+                for g in cfg.dominated_by(c.id, lambda y: y.kind == "assume" and id(y.ast) in inside):
+                    t = g.ast
+                    names = {x.id for x in ast.walk(t) if isinstance(x, ast.Name)}
+                    if not (names & vals):
+                        continue
+                    is_none = isinstance(t, ast.Compare) and len(t.ops) == 1 and isinstance(t.ops[0], (ast.Is, ast.IsNot)) and isinstance(t.comparators[0], ast.Constant) \
+                        and t.comparators[0].value is None
+                    if not is_none:
+                        bad.append("`%s` (%s)" % (norm(t)[:40], "true" if g.taken else "false"))
+        rep.ob(R, site, "items of %s are skipped only when absent" % sorted(words), not bad,
+               "the `continue` is reached through %s: a start/value that is 0, 0.0 or false is treated like an attribute that was never set and "
+               "its <item> is missing from the document" % ", ".join(bad[:3]))
+    if n < 1:
+        raise MechanismMissing(R, "no loop over the start/value attributes found in exitSymbol")
+
+
 MUTABLE_CTORS = ("dict", "list", "set", "OrderedDict", "defaultdict", "deque", "Counter", "WeakValueDictionary", "WeakKeyDictionary", "WeakSet", "lru_cache", "cache")
 
 
@@ -377,3 +506,29 @@ def _m_memo(mod):
                 "if (id(ast_tree), model_name) in _generated:\n    return _generated[(id(ast_tree), model_name)]").body[0])
             return mod
     return None
+
+
+@SPEC.mutant("n-ary application keeps first and last operand", XML, "R25.7", "passed on whole")
+def _m_first_last(mod):
+    def edit(fn):
+        for n in ast.walk(fn):
+            if isinstance(n, ast.Call) and is_name(n.func, "E") and n.args and isinstance(n.args[0], ast.Constant) and n.args[0].value == "apply":
+                n.args = [n.args[0], ast.parse("self.xml[tree.operands[0]]", mode="eval").body, ast.parse("self.xml[tree.operands[-1]]", mode="eval").body]
+                return True
+        return False
+
+    return mod if replace_in_func(mod, "XmlGenerator.exitExpression", edit) else None
+
+
+@SPEC.mutant("falsy start/value treated as absent", XML, "R25.8", "skipped only when absent")
+def _m_falsy(mod):
+    def edit(fn):
+        for n in ast.walk(fn):
+            if isinstance(n, ast.For) and "'start'" in norm(n.iter):
+                for st in n.body:
+                    if isinstance(st, ast.If) and "is None" in norm(st.test):
+                        st.test = ast.UnaryOp(op=ast.Not(), operand=st.test.left)
+                        return True
+        return False
+
+    return mod if replace_in_func(mod, "XmlGenerator.exitSymbol", edit) else None
